@@ -2717,6 +2717,14 @@ namespace bloch::compiler {
         if (node.value)
             node.value->accept(*this);
 
+        // A final array variable is not modifiable through its elements either.
+        if (auto var = dynamic_cast<VariableExpression*>(node.collection.get())) {
+            if (isDeclared(var->name) && isFinal(var->name)) {
+                throw BlochError(ErrorCategory::Semantic, node.line, node.column,
+                                 "Cannot modify final variable '" + var->name + "'");
+            }
+        }
+
         // Type check: array element assignment must match element type.
         auto isArrayName = [](const std::string& name) {
             return name.size() >= 2 && name.rfind("[]") == name.size() - 2;
